@@ -164,6 +164,8 @@ def run(ctx):
     if n4 < 1:
         raise AnalysisBroken("no `lo | hi << 32` assembly found in orcexecutor.c")
 
+    d6_reuse_key(db, rep)
+
     # ---- D5: saturation agrees with the reference (doc/opcode_table.xml) --------------------------
     # An opcode whose reference pseudo code is clamp(...) / sign(a) must saturate in the emulator; every other opcode
     # must NOT contain a saturation that can take effect (two's-complement wrap-around).  "Can take effect" is decided
@@ -230,3 +232,80 @@ def emus_dispatch_source(ee):
             return unparse(n.c[1]) in ("opcode->emulateN", "insn->opcode->emulateN")
     return False
 
+
+
+def d6_reuse_key(db, rep, rule="D6-REUSE-KEY"):
+    """D6: orc_compiler_rewrite_insns lets several instructions share the temporary that holds a loaded parameter/constant.
+    What is in that temporary depends on three things of the use that created it: which parameter, the operand size of the
+    opcode, and the x2/x4 replication.  The facts known where the compiler decides to reuse a temporary must tell any two
+    uses that differ in one of these apart.  Decided by finite evaluation: over operand sizes {1,2,4,8}, replication
+    {1,2,4} and two parameters, the equality facts (stored attribute == expression of the use) and the arguments handed to
+    opaque predicates are evaluated; two different uses with the same signature mean the wrong value can be reused."""
+    import itertools
+    from exprval import NotPure, evaluate, variables
+    from flow import Facts
+    from loops import counted
+    f = db.func("orc_compiler_rewrite_insns", "orccompiler")
+    rep.saw(f)
+    decision = None
+    for lp in f.walk():
+        if lp.k != "ForStmt":
+            continue
+        cl = counted(lp)
+        if not cl or lp.c[3] is None:
+            continue
+        lv = cl["var"]
+        if not any(x.k == "MemberExpr" and x.name == "has_parameter" and ("[%s]" % lv) in unparse(x) for x in lp.c[3].walk()):
+            continue
+        for x in lp.c[3].walk():
+            if x.k == "BinaryOperator" and x.op == "=" and access_path(strip_casts(x.c[1])) == lv and strip_casts(x.c[0]).k == "DeclRefExpr":
+                decision = (x, lv)
+    if decision is None:
+        raise AnalysisBroken("orc_compiler_rewrite_insns: the loop that looks for an already loaded parameter was not found")
+    node, lv = decision
+    X2, X4 = db.macro_int("ORC_INSTRUCTION_FLAG_X2"), db.macro_int("ORC_INSTRUCTION_FLAG_X4")
+    INPUTS = ("opcode->src_size[]", "multiplier", "insn.flags", "insn.src_args[]")
+    eqs, opaque = [], []
+    for c in Facts(f).conds(node):
+        if c[0] == "switch":
+            continue
+        n, pol = c
+        calls = [y for y in n.walk() if y.k == "CallExpr" and y.name not in ("strcmp", "__builtin_expect")]
+        if calls:
+            for y in calls:
+                for a in y.args():
+                    if variables(a) & set(INPUTS):
+                        opaque.append(a)
+            continue
+        if n.k == "BinaryOperator" and ((n.op == "==" and pol) or (n.op == "!=" and not pol)):
+            for stored, e in ((n.c[0], n.c[1]), (n.c[1], n.c[0])):
+                if ("[%s]" % lv) in unparse(stored) and ("[%s]" % lv) not in unparse(e) and variables(e) & set(INPUTS):
+                    eqs.append(e)
+    sigs = {}
+    clash = None
+    for S, M, P in itertools.product((1, 2, 4, 8), (1, 2, 4), (40, 41)):
+        env = {"opcode->src_size[]": S, "multiplier": M, "insn.flags": {1: 0, 2: X2, 4: X4}[M], "insn.src_args[]": P}
+        sig = []
+        for e in eqs:
+            try:
+                sig.append(evaluate(e, env))
+            except NotPure:
+                sig.append(tuple(sorted((k, env[k]) for k in variables(e) if k in env)))
+        for a in opaque:
+            try:
+                v = evaluate(a, env)
+                if "insn.flags" in variables(a):
+                    v &= (X2 | X4)
+                sig.append(v)
+            except NotPure:
+                sig.append(tuple(sorted((k, env[k]) for k in variables(a) if k in env)))
+        sig = tuple(sig)
+        if sig in sigs and sigs[sig] != (S, M, P) and clash is None:
+            clash = (sigs[sig], (S, M, P))
+        sigs.setdefault(sig, (S, M, P))
+    rep.check(clash is None, rule, where(f), "param-temp-reuse",
+              "%d equality facts and %d predicate arguments at the reuse decision tell all 24 (operand size, replication, parameter) combinations apart" % (len(eqs), len(opaque)),
+              "the conditions under which orc_compiler_rewrite_insns reuses a loaded parameter do not distinguish a use with operand size %d x%d from one with "
+              "operand size %d x%d (same parameter): the second instruction reads the first one's temporary although the value loaded for it has a "
+              "different lane structure (e.g. `x2 addb ..p` then `addw ..p`: p = 1 is read as 0x0101)" %
+              ((clash[0][0], clash[0][1], clash[1][0], clash[1][1]) if clash else (0, 0, 0, 0)), line=node.line)
